@@ -2,17 +2,24 @@ fn check_variant(
     crate_name: &CrateName,
     serde_renamed: &RenamedTypes,
     imported_types: &HashSet<ImportedType>,
+    generic_types: &[String],
     variants: &mut Vec<RustEnumVariant>,
 ) {
     for v in variants {
         match v {
             RustEnumVariant::Unit(_) => (),
             RustEnumVariant::Tuple { ty, .. } => {
-                check_type(crate_name, serde_renamed, imported_types, ty);
+                check_type(crate_name, serde_renamed, imported_types, generic_types, ty);
             }
             RustEnumVariant::AnonymousStruct { fields, .. } => {
                 for f in fields {
-                    check_type(crate_name, serde_renamed, imported_types, &mut f.ty);
+                    check_type(
+                        crate_name,
+                        serde_renamed,
+                        imported_types,
+                        generic_types,
+                        &mut f.ty,
+                    );
                 }
             }
         }
